@@ -31,10 +31,18 @@ var work = filepath.Join(vlib.VerifDir, ".work", "c11")
 
 func tri(k int) *sdf.Triangle3 {
 	f := float64(k)
-	return &sdf.Triangle3{{X: f, Y: 0, Z: 0}, {X: f, Y: 1, Z: 0}, {X: f, Y: 0, Z: 1}}
+	// the item number is the x coordinate; y lies far from the origin (beyond +-2^31 micro-units), every 9th
+	// triangle is a sliver with an edge of 1e-7
+	if k%9 == 4 {
+		return &sdf.Triangle3{{X: f, Y: 5000, Z: 0}, {X: f, Y: 5000 + 1e-7, Z: 0}, {X: f, Y: 5000, Z: 1}}
+	}
+	return &sdf.Triangle3{{X: f, Y: 5000, Z: 0}, {X: f, Y: 5001, Z: 0}, {X: f, Y: 5000, Z: 1}}
 }
 func line(k int) *sdf.Line2 {
 	f := float64(k)
+	if k%7 == 3 { // every 7th segment has coincident end points: still an item
+		return &sdf.Line2{{X: f, Y: 0}, {X: f, Y: 0}}
+	}
 	return &sdf.Line2{{X: f, Y: 0}, {X: f, Y: 1}}
 }
 
@@ -312,7 +320,7 @@ func (sc scen) body() (func(), func() ([]int, string)) {
 					want := tri(k)
 					for q := 0; q < 3; q++ {
 						for a, w := range []float64{want[q].X, want[q].Y, want[q].Z} {
-							if float64(math.Float32frombits(binary.LittleEndian.Uint32(b[84+50*i+12+12*q+4*a:]))) != w {
+							if float64(math.Float32frombits(binary.LittleEndian.Uint32(b[84+50*i+12+12*q+4*a:]))) != float64(float32(w)) {
 								k = -2
 							}
 						}
@@ -388,7 +396,7 @@ func (sc scen) body() (func(), func() ([]int, string)) {
 					want := tri(k)
 					for q, vi := range []uint32{t.V1, t.V2, t.V3} {
 						v := mesh.Vertices.Vertex[vi]
-						if float64(v.X()) != want[q].X || float64(v.Y()) != want[q].Y || float64(v.Z()) != want[q].Z {
+						if math.Abs(float64(v.X())-want[q].X) > 1e-4 || math.Abs(float64(v.Y())-want[q].Y) > 1e-4 || math.Abs(float64(v.Z())-want[q].Z) > 1e-4 {
 							k = -2
 						}
 					}
